@@ -91,6 +91,10 @@ pub struct SubInst {
     pub ack_deadline_req: i32,
     pub push: Option<PushSpec>,
     pub create_call: u32,
+    /// Sequence number from which the subscription counts as created: the create's OK reply, or -
+    /// for a create whose caller went away - the first quiescent barrier after another request
+    /// saw it exist (GetSubscription OK, CreateSubscription ALREADY_EXISTS).
+    pub established_seq: u64,
 }
 
 impl SubInst {
@@ -455,12 +459,36 @@ impl<'a> Model<'a> {
     pub fn unique_sub(&self, name: &str) -> Option<SubInst> {
         let creates = self.sub_creates.get(name)?;
         let effective: Vec<&Call> = creates.iter().filter_map(|c| self.calls.get(c)).filter(|c| c.maybe_effective()).collect();
-        if effective.len() != 1 || !effective[0].returned_ok() {
+        if effective.len() != 1 {
             return None;
         }
         let c = effective[0];
+        let established_seq = if c.returned_ok() {
+            c.ret_seq.unwrap()
+        } else if matches!(c.out, Some(Outcome::Abandoned(_))) {
+            // the caller went away; somebody must have seen the subscription exist
+            let mut seen: Option<u64> = None;
+            for o in self.calls.values() {
+                let shows = match (&o.req, &o.out) {
+                    (Req::GetSub { sub }, Some(Outcome::Ok(_))) => sub == name,
+                    (Req::CreateSub { sub, .. }, Some(Outcome::Err(ALREADY_EXISTS, _))) => sub == name,
+                    _ => false,
+                };
+                if shows && o.inv_seq > c.inv_seq {
+                    let r = o.ret_seq.unwrap();
+                    seen = Some(seen.map(|s| s.min(r)).unwrap_or(r));
+                }
+            }
+            // Seeing it exist is not enough: the create may still be in the middle of attaching it.
+            // Once the system has been quiescent after that, creation is over, and a subscription
+            // that exists counts as created from that barrier on.
+            let seen = seen?;
+            self.barrier_after(seen.max(c.ret_seq.unwrap_or(seen)))?.seq
+        } else {
+            return None;
+        };
         if let Req::CreateSub { sub, topic, ack_deadline, push } = &c.req {
-            Some(SubInst { name: sub.clone(), topic: topic.clone(), ack_deadline_req: *ack_deadline, push: push.clone(), create_call: c.id })
+            Some(SubInst { name: sub.clone(), topic: topic.clone(), ack_deadline_req: *ack_deadline, push: push.clone(), create_call: c.id, established_seq })
         } else {
             None
         }
